@@ -843,6 +843,9 @@ fn corpus(pool: &Pool) -> Vec<Vec<Op>> {
         vec![Op::O(1 << 20), Op::A(1), Op::A(1), Op::B(5, 1), Op::O(1 << 20), Op::R, Op::N, Op::A(1), Op::R],
         vec![Op::O(1 << 20), Op::A(1), Op::A(1), Op::B(e + 19, 0x80), Op::O(1 << 20), Op::R, Op::N],
         vec![Op::O(1 << 20), Op::A(1), Op::A(1), Op::B(e + HEADER_LEN + 7, 0xff), Op::O(1 << 20), Op::R, Op::N, Op::A(1), Op::C, Op::O(1 << 20), Op::R],
+        // the u64 end of the sequence space (debug build: arithmetic overflow panics, nothing is written)
+        vec![Op::F(u64::MAX), Op::O(1 << 20), Op::N, Op::S, Op::L],
+        vec![Op::F(u64::MAX - 1), Op::O(1 << 20), Op::N, Op::A(1), Op::N, Op::R, Op::S],
     ]
 }
 
